@@ -44,6 +44,8 @@ func (s *pSite) writeTargets(ins ssa.Instruction) []ssa.Value {
 				if _, isSlice := t.X.Type().Underlying().(*types.Slice); isSlice {
 					if al := s.cellOf(t.X); al != nil {
 						out = append(out, al)
+					} else if pr, ok := s.root(t.X).(*ssa.Parameter); ok {
+						out = append(out, pr) // the elements of a slice that was handed in
 					}
 					return
 				}
@@ -52,10 +54,23 @@ func (s *pSite) writeTargets(ins ssa.Instruction) []ssa.Value {
 			}
 			break
 		}
+		if u, ok := cur.(*ssa.UnOp); ok && u.Op == token.MUL && cur != addr {
+			// a field or element of the object behind a pointer that is kept in a cell: the object is as shared as the cell
+			if al, ok := s.root(u.X).(*ssa.Alloc); ok {
+				if _, isPtr := al.Type().Underlying().(*types.Pointer).Elem().Underlying().(*types.Pointer); isPtr {
+					out = append(out, derefCell{al})
+				}
+			}
+			return
+		}
 		r := s.root(cur)
 		switch r.(type) {
 		case *ssa.Alloc, *ssa.Global:
 			out = append(out, r)
+		case *ssa.Parameter:
+			if cur != addr {
+				out = append(out, r) // a field or element of the object a pointer parameter refers to
+			}
 		}
 	}
 	switch t := ins.(type) {
@@ -75,6 +90,9 @@ func (s *pSite) writeTargets(ins ssa.Instruction) []ssa.Value {
 	return out
 }
 
+// derefCell: the object a pointer kept in a cell refers to (as a write target).
+type derefCell struct{ *ssa.Alloc }
+
 func (pc *pCtx) p3Frame(s *pSite) {
 	props := []string{"C12"}
 	_, hot := pc.annotated(s.Name, "hot")
@@ -90,9 +108,20 @@ func (pc *pCtx) p3Frame(s *pSite) {
 					switch t := tgt.(type) {
 					case *ssa.Alloc:
 						inside = s.InTree[t.Parent()]
+					case derefCell:
+						inside = s.InTree[t.Alloc.Parent()]
+						what = "*" + cellName(t.Alloc)
 					case *ssa.Global:
 						inside = false
 						what = "global " + t.Name()
+					case *ssa.Parameter:
+						// the object behind a pointer (or the elements of a slice) that was handed in: to the
+						// constructor (shared by every subscription) or to a callback (the value belongs to the sender)
+						inside = false
+						what = "*" + t.Name()
+						if t.Parent() != nil && t.Parent().Signature.Recv() != nil && len(t.Parent().Params) > 0 && t.Parent().Params[0] == t {
+							inside = true // a method's own receiver
+						}
 					}
 					k := key{role, what}
 					if seen[k] && inside {
